@@ -349,6 +349,30 @@ def match_known(known, violation):
 # the check itself
 # ---------------------------------------------------------------------------
 
+def _sweep_stale_scratch():
+    """default scratch roots (/tmp/ctm-verif-<pid>) of checks that were killed: removed when their process is gone"""
+    if os.environ.get('VERIF_SCRATCH'):
+        return
+    try:
+        for name in os.listdir('/tmp'):
+            if not name.startswith('ctm-verif-'):
+                continue
+            try:
+                owner = int(name.rsplit('-', 1)[1])
+            except ValueError:
+                continue
+            if owner == os.getpid():
+                continue
+            try:
+                os.kill(owner, 0)
+            except ProcessLookupError:
+                shutil.rmtree(os.path.join('/tmp', name), ignore_errors=True)
+            except PermissionError:
+                pass
+    except OSError:
+        pass
+
+
 def check_main(pid, tier):
     t0 = time.time()
     sys.path.insert(0, VERIF)
@@ -361,6 +385,7 @@ def check_main(pid, tier):
     root = scratch_root()
     shutil.rmtree(root, ignore_errors=True)
     os.makedirs(root, exist_ok=True)
+    _sweep_stale_scratch()
     ev_dir = os.environ.get('VERIF_EVIDENCE_DIR') or os.path.join(VERIF, 'evidence')
     rp_dir = os.environ.get('VERIF_REPLAY_DIR') or os.path.join(VERIF, 'replays')
     os.makedirs(ev_dir, exist_ok=True)
